@@ -207,6 +207,17 @@ class PS(object):
             args = [r if rng.random() < 0.4 else rng.choice(tys) for _ in range(ar)]
             ps.addPrimitive(self._fn, args, r, name="p%d" % np_)
             np_ += 1
+            if rng.random() < 0.6:
+                # a twin: same arity and return type (or a subtype), one argument type changed, so that
+                # "same number of arguments" and "same argument types" differ
+                j = rng.randrange(ar)
+                others = [t for t in tys if t is not args[j]]
+                if others:
+                    args2 = list(args)
+                    args2[j] = rng.choice(others)
+                    r2 = rng.choice([t for t in tys if issubclass(t, r)])
+                    ps.addPrimitive(self._fn, args2, r2, name="p%d" % np_)
+                    np_ += 1
         for _ in range(rng.randint(0, 2) if small else rng.randint(1, 4)):
             ps.addTerminal(100 + nt_, rng.choice(tys))
             nt_ += 1
@@ -768,7 +779,7 @@ def main(run):
         if r < 0.5:
             mn = rng.randint(0, 2)
             return ("uniform", (rng.choice(["full", "grow", "half"]), mn, rng.randint(mn, 3)))
-        if r < 0.62:
+        if r < 0.66:
             return ("noderepl",)
         if r < 0.74:
             return ("eph", rng.choice(["one", "all"]))
@@ -796,7 +807,7 @@ def main(run):
         return n
 
     # ---------------------------------------------------------------- psets
-    npsets = run.scale(10, 40)
+    npsets = run.scale(10, 32)
     psets = []
     for i in range(npsets):
         typed = i % 2 == 1
@@ -804,7 +815,7 @@ def main(run):
         psets.append(PS(gp, typed, rng, gappy=gappy))
     small_sets = [PS(gp, False, rng, small=True), PS(gp, True, rng, small=True)]
     if run.thorough:
-        small_sets += [PS(gp, True, rng, small=True) for _ in range(3)]
+        small_sets += [PS(gp, True, rng, small=True) for _ in range(2)]
     # the tables themselves: model of _add against pset.primitives / pset.terminals
     for ps in psets + small_sets + [PS(gp, True, rng, gappy=(i % 3 == 0)) for i in range(run.scale(20, 200))]:
         case = {"kind": "pset", "pset": ps.describe(), "adds": [(x.name, isp) for x, isp in ps.addlog]}
@@ -850,7 +861,7 @@ def main(run):
                 ext = gp.PrimitiveTree(list(t) + [t[-1]])
                 search_height_cases(ps, ext, all_indices=False)
                 setslice_cases(ps, t, rng.choice(small))
-        nops = run.scale(60, 300)
+        nops = run.scale(60, 250)
         for _ in range(nops):
             op = rand_op(ps)
             ins = [list(rng.choice(small)) for _ in range(arity2(op))]
@@ -873,21 +884,21 @@ def main(run):
     maxn = 5
     for ps in small_sets:
         trees = enum_trees(ps, ps.pset.ret, maxn)
-        if len(trees) > run.scale(60, 400):
-            trees = rng.sample(trees, run.scale(60, 400))
+        if len(trees) > run.scale(40, 120):
+            trees = rng.sample(trees, run.scale(40, 120))
         for t in trees:
             search_height_cases(ps, gp.PrimitiveTree(t), all_indices=True)
         ops1 = [("noderepl",), ("eph", "one"), ("eph", "all"), ("insert",), ("shrink",), ("uniform", ("grow", 0, 1)),
                 ("uniform", ("full", 1, 1))]
-        budget = run.scale(40, 120)
+        budget = run.scale(16, 40)
         for t in trees:
             for op in ops1:
                 enumerate_draws(ps, op, [t], budget)
             enumerate_draws(ps, ("shrink",), [t], budget, limit=("height", 2))
             enumerate_draws(ps, ("insert",), [t], budget, limit=("len", len(t)))
         pairs = [(a, b) for a in trees for b in trees]
-        if len(pairs) > run.scale(150, 1500):
-            pairs = rng.sample(pairs, run.scale(150, 1500))
+        if len(pairs) > run.scale(80, 400):
+            pairs = rng.sample(pairs, run.scale(80, 400))
         for a, b in pairs:
             enumerate_draws(ps, ("cx",), [a, b], budget)
             enumerate_draws(ps, ("cxlb", 0.5), [a, b], budget)
@@ -897,7 +908,7 @@ def main(run):
         for kind in GENS:
             for (mn, mx) in [(0, 0), (0, 1), (1, 1), (0, 2), (1, 2), (2, 2)]:
                 stack, n = [[]], 0
-                while stack and n < run.scale(40, 200):
+                while stack and n < run.scale(30, 120):
                     script = stack.pop()
                     src = ScriptSrc(script)
                     gen_case(ps, kind, mn, mx, None, src)
@@ -907,6 +918,25 @@ def main(run):
                         for v in range(1, src.counts[pos]):
                             stack.append(base + [v])
 
+    # ---------------------------------------------------------------- the excluded configuration (Appendix B 7)
+    # strongly typed set rooted at `object`: cxOnePoint's "Not STGP" shortcut ignores types.  Replayed for the
+    # record (Props: C11_cx_object_root_is_excluded_for_a_reason); it is outside the claim, never a violation.
+    try:
+        xps = gp.PrimitiveSetTyped("MAIN", [], object)
+        xps.addPrimitive(lambda *a: 0, [TA, TB], object, name="h")
+        xps.addTerminal(1, TA)
+        xps.addTerminal(2, TB)
+        h, a, b = xps.primitives[object][0], xps.terminals[TA][0], [x for x in xps.terminals[TB] if x.ret is TB][0]
+        out, _ = with_proxy(ScriptSrc([0, 1, 0]), lambda: gp.cxOnePoint(gp.PrimitiveTree([h, a, b]), gp.PrimitiveTree([h, a, b])))
+        ill = out[0] == "ok" and bool(structure_problems(gp, list(out[1][0]), object))
+        run.notes.append("excluded configuration (typed set rooted at object, DESIGN Appendix B 7): cxOnePoint gives %s -> %s"
+                         % ([x.name for x in out[1][0]] if out[0] == "ok" else out[1],
+                            "ill-typed offspring, as the model says" if ill else "well-typed offspring (model example no longer matches)"))
+    except Exception as e:  # noqa
+        run.notes.append("excluded-configuration replay failed: %r" % (e,))
+
+    import time as _time
+    run.notes.append("python phase %.1fs, %d terms" % (_time.time() - run.t0, sum(len(g[1]) for g in groups.values())))
     # ---------------------------------------------------------------- correspondence, one group per pset
     pre, terms, cases = "", [], []
     for k, (ps, ts, cs) in groups.items():
